@@ -165,12 +165,28 @@ class C13(common.Spec):
 
 
 # ---------- generators ----------
+def _awkward_us():
+    """microsecond values whose decimal fraction is not exactly representable in binary such that a
+    naive float conversion (int(float('0.1251') * 1e6)) lands one microsecond low"""
+    out = []
+    for us in range(100, 1000000, 7):
+        frac = ('%06d' % us).rstrip('0')
+        if len(frac) >= 4 and int(float('0.' + frac) * 1e6) != us:
+            out.append(us)
+            if len(out) == 24:
+                break
+    return out
+
+
+AWKWARD_US = _awkward_us()
+
+
 def gen_time(rng):
     grid = [0, 0, 1, 9, 10, 29, 30, 59]
     h = rng.choice([0, 0, 1, 5, 9, 10, 12, 22, 23, rng.randrange(24)])
     m = rng.choice(grid)
     s = rng.choice([0, 0, 0] + grid)
-    us = rng.choice([0, 0, 0, 0, 500000, 999000, 999999, 1, rng.randrange(1000000)])
+    us = rng.choice([0, 0, 0, 0, 500000, 999000, 999999, 1, rng.randrange(1000000), rng.choice(AWKWARD_US)])
     return [h, m, s, us]
 
 
